@@ -601,7 +601,7 @@ def rule_MX(run: Run) -> RuleResult:
                 "the other options dictionary is passed unchanged", nec)
     # Map builds each combination through a forcing WithOptions
     mp = repo.cls("Map")
-    ps = normal(analyse_method(Ctx(repo), mp, "_iter"))
+    ps = normal(run.paths(mp, "evaluate"))
     found = []
 
     def walk(t):
@@ -620,9 +620,12 @@ def rule_MX(run: Run) -> RuleResult:
                 walk(a)
 
     for p in ps:
-        walk(p.ret)
+        for e_ in p.events:
+            if e_.kind in ("unfold", "op") and e_.target is not None:
+                walk(e_.target)
+    found = [w for i_, w in enumerate(found) if w.key() not in {x.key() for x in found[:i_]}]
     ok = bool(found) and all(w.attrs.get("force") == Const(True) and w.attrs.get("evaluatable") == Child("evaluatable") for w in found)
-    res.add("labrea.iterable.Map._iter:each combination evaluated through a forcing WithOptions", ok, mp.module.relpath, mp.methods["_iter"].lineno,
+    res.add("labrea.iterable.Map._iter:each combination evaluated through a forcing WithOptions", ok, mp.module.relpath, mp.find_method("evaluate")[1].lineno,
             f"{len(found)} WithOptions terms: {[w.key()[:80] for w in found[:2]]}", nec)
     return res
 
@@ -646,6 +649,7 @@ def rule_TK(run: Run) -> RuleResult:
         ok_skip = ok_deleg = True
         delegated = False
         saw_match = saw_nomatch = False
+        filtered_params = False
         why_skip = why_deleg = ""
         visits = False
         for p in ps:
@@ -659,8 +663,21 @@ def rule_TK(run: Run) -> RuleResult:
                 k_, pol = Frame.norm_cond(c[2], c[1])
                 if k_ == MATCH:
                     m = pol
+            m_from_filter = False
+            if m is None:
+                # the keys may be pre-filtered by a comprehension: every element that was kept satisfies the filter
+                for e in p.events:
+                    if e.kind == "filter" and e.target is not None and not e.via:
+                        k_, pol = Frame.norm_cond(e.target.key(), True)
+                        if k_ == MATCH:
+                            m = pol
+                            m_from_filter = True
+                            if pol is False:
+                                filtered_params = True
             opt_ops = [e for e in p.events if e.kind in ("unfold", "op") and e.op == op and isinstance(e.target, New) and e.target.cls.name == "Option"
                        and e.target.attrs.get("key") is not None and e.target.attrs["key"].key() == KEY]
+            if m_from_filter and not opt_ops:
+                m = None        # the filtered collection may have been empty on this path: no key was handled
             if m is True:
                 saw_match = True
                 if opt_ops:
@@ -683,7 +700,7 @@ def rule_TK(run: Run) -> RuleResult:
                         why_deleg = "the delegated Option carries a default: a missing referenced key would go unreported"
         ok_src = srcs == {"Child(template)"}
         res.add(f"labrea.template.Template.{op}:iterates find_template_keys(self.template)", ok_src, f, fn.lineno, f"key source arguments: {sorted(srcs)}", nec)
-        res.add(f"labrea.template.Template.{op}:skips exactly the :param: keys", ok_skip and saw_match and saw_nomatch, f, fn.lineno,
+        res.add(f"labrea.template.Template.{op}:skips exactly the :param: keys", ok_skip and (saw_match or filtered_params) and saw_nomatch, f, fn.lineno,
                 why_skip or "TEMPLATE_PARAM.match(key) decides; matching keys are not looked up as options", nec)
         if not delegated:
             ok_deleg = False
